@@ -115,6 +115,7 @@ class RefAutomaton(object):
         self.nfa = nfa
         self.start = nfa.closure([start])
         self._tr = {}
+        self.canon = {}
 
     def cand(self, d):
         """Ordered candidates (rule index, ctx index) accepting in d, cut after the first
@@ -176,7 +177,11 @@ class RefDef(object):
         self.ctxs = []          # ctx index -> RefAutomaton (acceptor)
         self.rule_kind = {}
         self.ctx_of_rule = {}
+        self.action_class = {}
+        self._classes = {}
         self.build()
+        for aut in self.rule_sets.values():
+            aut.canon = self.action_class
 
     def build(self):
         d = self.d
@@ -201,6 +206,10 @@ class RefDef(object):
             nfa.add(rule.re, s, a, dict(env), self.bs)
             self.rule_kind[idx] = rule.kind
             self.ctx_of_rule[idx] = ctx_idx
+            # rules whose right-hand sides are the same text run interchangeable actions
+            rhs = getattr(rule, "rhs", None)
+            key = (rule.kind, rhs) if (rhs is not None or rule.kind == "skip") else ("rule", idx)
+            self.action_class[idx] = self._classes.setdefault(key, idx)
             idx += 1
 
         if d.sets is None:
